@@ -129,6 +129,8 @@ def run_ktmc(check, tier, nshards=NCPU, extra_env=None, timeout=None):
     procs = []
     env = offline_env(extra_env)
     env["KTMC_SCRATCH"] = scratch_base()
+    # wall-time budget of one schedule exploration (one case on one shard); on the unchanged tree no case comes near it
+    env.setdefault("KTMC_CASE_BUDGET_S", "1800" if tier == "thorough" else "60")
     try:
         for i in range(nshards):
             out = os.path.join(tmp, "shard%d.json" % i)
